@@ -53,6 +53,36 @@ func (t *dtree) kids(p int) []int {
 type renderOpts struct {
 	templates bool // every eligible subtree becomes a template reference (xpath stays at the reference site)
 	dynamic   bool // every xpath becomes xpath_dynamic: {const: xpath}
+	names     bool // the k-th field of every object carries a name full of characters that mean something somewhere (Eval.tla's f<k> are opaque)
+}
+
+// names that contain the separator and the escape character of the declarations' own naming scheme, blanks, non-ASCII
+// (in byte order, so that the k-th name is also the k-th key of the marshalled object)
+var oddFieldNames = []string{"%", "%%", "%2e", ".", "50%off", "a%.", "a.b", "a.b.c", "done%.total", "f1", "tax", "tax%", "x y", "é%"}
+
+func fieldName(o renderOpts, k int) string {
+	if o.names && k-1 < len(oddFieldNames) {
+		return oddFieldNames[k-1]
+	}
+	return fmt.Sprintf("f%d", k)
+}
+
+// expectedWithNames maps the keys of the specification's expectation ("k", "f<n>") to the names the rendering used
+func expectedWithNames(o renderOpts, exp []string) []string {
+	if !o.names {
+		return exp
+	}
+	out := append([]string{}, exp...)
+	for i := 0; i+1 < len(out); i++ {
+		if out[i] == "k" && strings.HasPrefix(out[i+1], "f") {
+			var n int
+			if _, err := fmt.Sscanf(out[i+1], "f%d", &n); err == nil {
+				out[i+1] = fieldName(o, n)
+			}
+			i++
+		}
+	}
+	return out
 }
 
 type schemaRenderer struct {
@@ -105,7 +135,7 @@ func (r *schemaRenderer) body(i int) []string {
 	case "object":
 		var fs []string
 		for k, c := range t.kids(i) {
-			fs = append(fs, fmt.Sprintf(`"f%d": %s`, k+1, r.node(c)))
+			fs = append(fs, jstr(fieldName(r.o, k+1))+": "+r.node(c))
 		}
 		parts = append(parts, `"object": {`+strings.Join(fs, ", ")+`}`)
 	case "array":
@@ -300,7 +330,7 @@ func c02Replay(args []string) int {
 			if !ok {
 				continue
 			}
-			for vi, o := range []renderOpts{{}, {templates: true}, {dynamic: true}} {
+			for vi, o := range []renderOpts{{}, {templates: true}, {dynamic: true}, {names: true}} {
 				ck := fmt.Sprint(format, vi, hashOf(c.T))
 				ce := cache[ck]
 				if ce == nil {
@@ -333,7 +363,8 @@ func c02Replay(args []string) int {
 				} else {
 					got = outputTokens(out.Results)
 				}
-				if strings.Join(canonKeptEmpty(got), "\x00") != strings.Join(canonKeptEmpty(c.Exp), "\x00") {
+				exp := expectedWithNames(o, c.Exp)
+				if strings.Join(canonKeptEmpty(got), "\x00") != strings.Join(canonKeptEmpty(exp), "\x00") {
 					nviol++
 					if nviol <= 40 {
 						key := "eval-mismatch"
@@ -341,9 +372,11 @@ func c02Replay(args []string) int {
 							key = "eval-mismatch-template"
 						} else if vi == 2 {
 							key = "eval-mismatch-xpath-dynamic"
+						} else if vi == 3 {
+							key = "eval-mismatch-field-names"
 						}
-						violation("C02", key, fmt.Sprintf("%s input %q: expected %v got %v", format, in, c.Exp, got),
-							M{"format": format, "schema": schema, "input": in, "expected": c.Exp, "actual": got, "results": out.Results, "variant": vi})
+						violation("C02", key, fmt.Sprintf("%s input %q: expected %v got %v", format, in, exp, got),
+							M{"format": format, "schema": schema, "input": in, "expected": exp, "actual": got, "results": out.Results, "variant": vi})
 					}
 				}
 				if vi == 0 && format == "xml" {
